@@ -52,18 +52,15 @@ func main() {
 			panic(err)
 		}
 		docs := map[string]M{
-			"d1": {"top": "x", "tag": "t", "items": A{M{"color": "red", "size": "s", "subs": A{M{"k": "a", "v": "1"}, M{"k": "b", "v": "2"}}}, M{"color": "blue", "size": "m"}}, "parts": A{M{"name": "n1", "qty": "q1"}}},
-			"d2": {"top": "x", "items": A{M{"color": "red", "size": "m", "subs": A{M{"k": "a", "v": "2"}}}, M{"color": "blue", "size": "s"}}, "parts": A{M{"name": "n2", "qty": "q1"}}},
-			"d3": {"top": "y", "tag": "t", "items": A{}, "parts": A{M{"name": "n1", "qty": "q2"}, M{"name": "n2", "qty": "q1"}}},
+			"d1": {"top": "x", "items": A{M{"color": "red"}}, "parts": A{M{"name": "n1"}}},
+			"d2": {"top": "x", "items": A{M{"color": "red"}}, "parts": A{M{"name": "n2"}}},
 			"d4": {"top": "y"},
 		}
-		for _, id := range []string{"d1", "d2", "d3", "d4"} {
+		for _, id := range []string{"d1", "d2", "d4"} {
 			if err := idx.Index(id, docs[id]); err != nil {
 				panic(err)
 			}
 		}
-		cnt, _ := idx.DocCount()
-		fmt.Printf("nested=%v DocCount=%d\n", nested, cnt)
 		run := func(name string, q query.Query) {
 			req := bleve.NewSearchRequestOptions(q, 100, 0, false)
 			res, err := idx.Search(req)
@@ -93,37 +90,14 @@ func main() {
 			return q
 		}
 		Q := func(qs ...query.Query) []query.Query { return qs }
-		run("matchall", bleve.NewMatchAllQuery())
-		run("conj(red,s)", bleve.NewConjunctionQuery(tq("items.color", "red"), tq("items.size", "s")))
-		run("conj(red, subs.k=a)", bleve.NewConjunctionQuery(tq("items.color", "red"), tq("items.subs.k", "a")))
-		run("conj(subs.k=a, subs.v=2)", bleve.NewConjunctionQuery(tq("items.subs.k", "a"), tq("items.subs.v", "2")))
-		run("conj(size=s, subs.v=2)", bleve.NewConjunctionQuery(tq("items.size", "s"), tq("items.subs.v", "2")))
-		run("conj(red, parts.name=n1)", bleve.NewConjunctionQuery(tq("items.color", "red"), tq("parts.name", "n1")))
-		run("conj(parts n1,q1)", bleve.NewConjunctionQuery(tq("parts.name", "n1"), tq("parts.qty", "q1")))
-		dj := bleve.NewDisjunctionQuery(tq("items.color", "red"), tq("top", "y"))
-		run("disj1(red, top=y)", dj)
-		dj2 := bleve.NewDisjunctionQuery(tq("items.color", "red"), tq("top", "x"))
-		dj2.SetMin(2)
-		run("disj2(red, top=x) [want d1 d2]", dj2)
-		dj3 := bleve.NewDisjunctionQuery(tq("items.color", "red"), tq("parts.name", "n1"))
-		dj3.SetMin(2)
-		run("disj2(red, parts n1) [want d1]", dj3)
-		dj4 := bleve.NewDisjunctionQuery(tq("tag", "t"), tq("top", "x"))
-		dj4.SetMin(2)
-		run("disj2(tag t, top x) [want d1]", dj4)
-		run("bool(must red, mustnot parts n1) [want d2]", b(Q(tq("items.color", "red")), nil, Q(tq("parts.name", "n1")), 0))
-		run("bool(must top x, mustnot tag t) [want d2]", b(Q(tq("top", "x")), nil, Q(tq("tag", "t")), 0))
-		run("bool(mustnot top x) [want d3 d4]", b(nil, nil, Q(tq("top", "x")), 0))
-		run("bool(mustnot color red) [want d3 d4]", b(nil, nil, Q(tq("items.color", "red")), 0))
-		run("bool(should red, mustnot top y)", b(nil, Q(tq("items.color", "red")), Q(tq("top", "y")), 0))
-		run("bool(should2 red,top x) [want d1 d2]", b(nil, Q(tq("items.color", "red"), tq("top", "x")), nil, 2))
-		run("bool(must top x, should0 red)", b(Q(tq("top", "x")), Q(tq("items.size", "zz")), nil, 0))
-		run("bool(must top x, mustnot red) [want none]", b(Q(tq("top", "x")), nil, Q(tq("items.color", "red")), 0))
-		run("bool(must red, mustnot subs.k=b) [want d2]", b(Q(tq("items.color", "red")), nil, Q(tq("items.subs.k", "b")), 0))
-		run("conj(top x, bool(must tag t, mustnot top y))", bleve.NewConjunctionQuery(tq("items.color", "red"), b(Q(tq("tag", "t")), nil, Q(tq("top", "y")), 0)))
-		run("conj(matchall, red)", bleve.NewConjunctionQuery(bleve.NewMatchAllQuery(), tq("items.color", "red")))
-		run("term red", tq("items.color", "red"))
-		run("term top", tq("top", "x"))
+		run("must top:x mustnot items.color:red", b(Q(tq("top", "x")), nil, Q(tq("items.color", "red")), 0))
+		run("must items.color:red mustnot parts.name:n1", b(Q(tq("items.color", "red")), nil, Q(tq("parts.name", "n1")), 0))
+		dj := bleve.NewDisjunctionQuery(tq("items.color", "red"), tq("top", "x"))
+		dj.SetMin(2)
+		run("disj min2 items.color:red top:x", dj)
+		run("mustnot top:x", b(nil, nil, Q(tq("top", "x")), 0))
+		run("mustnot items.color:red", b(nil, nil, Q(tq("items.color", "red")), 0))
+		run("must matchall mustnot top:x", b(Q(bleve.NewMatchAllQuery()), nil, Q(tq("top", "x")), 0))
 		// forest
 		adv, _ := idx.Advanced()
 		rd, _ := adv.Reader()
@@ -143,7 +117,7 @@ func main() {
 		idx.Delete("d1")
 		run("after delete d1: term red", tq("items.color", "red"))
 		run("after delete d1: matchall", bleve.NewMatchAllQuery())
-		cnt, _ = idx.DocCount()
+		cnt, _ := idx.DocCount()
 		fmt.Printf("nested=%v DocCount=%d\n", nested, cnt)
 		idx.Close()
 	}
